@@ -44,6 +44,65 @@ def lex_impl(text, mybatis=False):
     return M.parse(text)
 
 
+def dump(v):
+    """reflective canonical dump of any value the library returns (must agree with Drv.showVal)"""
+    import dataclasses, enum
+    if v is None: return "None"
+    if v is True: return "True"
+    if v is False: return "False"
+    if isinstance(v, enum.Enum): return type(v).__name__ + "." + v.name
+    if isinstance(v, int): return str(v)
+    if isinstance(v, str): return '"' + q(v) + '"'
+    if isinstance(v, tuple): return "T[" + ",".join(dump(x) for x in v) + "]"
+    if isinstance(v, list): return "L[" + ",".join(dump(x) for x in v) + "]"
+    if isinstance(v, (set, frozenset)): return "S[" + ",".join(sorted(dump(x) for x in v)) + "]"
+    if dataclasses.is_dataclass(v):
+        return type(v).__name__ + "{" + ",".join(f.name + "=" + dump(getattr(v, f.name)) for f in dataclasses.fields(v)) + "}"
+    return "?" + type(v).__name__
+
+
+_PARSER = None
+
+
+def capturing_parser():
+    """SQLParser subclass that remembers the TokenScanner built for a string input"""
+    global _PARSER
+    if _PARSER is None:
+        from metasequoia_sql import SQLParser
+        from metasequoia_sql.common import TokenScanner
+        from metasequoia_sql.lexical import FSMMachine
+
+        class P(SQLParser):
+            last = None
+
+            @classmethod
+            def _build_token_scanner(cls, string):
+                sc = TokenScanner(FSMMachine.parse(string))
+                P.last = sc
+                return sc
+        _PARSER = P
+    return _PARSER
+
+
+# entry points whose public signature takes a with_clause between the text and the dialect
+_WITH_ARG = {"insert_statement": "positional", "update_statement": "positional", "select_statement": "keyword", "single_select_statement": "keyword"}
+
+
+def parse_impl(entry, dialect, text):
+    from metasequoia_sql import SQLType
+    P = capturing_parser()
+    P.last = None
+    st = SQLType[dialect]
+    fn = getattr(P, "parse_" + entry)
+    if _WITH_ARG.get(entry) == "positional":
+        res = fn(text, None, st)
+    else:
+        res = fn(text, sql_type=st)
+    sc = P.last
+    rest = max(0, len(sc.elements) - sc.pos)
+    return res, rest
+
+
 def respond(line, cfg_idx=None):
     parts = line.split(" ")
     op = parts[0]
@@ -59,4 +118,23 @@ def respond(line, cfg_idx=None):
             return "OK " + "".join(show_tok(t) for t in lex_impl(unhex(parts[1]), mybatis=True))
         except Exception as e:
             return err_kind(e)
+    if op == "P":
+        try:
+            res, rest = parse_impl(parts[1], parts[2], unhex(parts[3]))
+            return "OK %d %s" % (rest, dump(res))
+        except Exception as e:
+            return err_kind(e)
+    if op == "PR":
+        from metasequoia_sql import SQLType, SQLParser
+        try:
+            stmts = SQLParser.parse_statements(unhex(parts[3]), sql_type=SQLType[parts[1]])
+        except Exception as e:
+            return err_kind(e)
+        out = []
+        for st in stmts:
+            try:
+                out.append("S:" + q(st.source(SQLType[parts[2]])))
+            except Exception as e:
+                out.append("E:" + err_kind(e).replace(" ", "_"))
+        return "OK " + " ".join(out)
     return "BADREQ"
